@@ -324,7 +324,39 @@ def region(rows):
     vals = [x for r in rows for v in r for x in ints(v)]
     if any(x == -2 ** 63 for x in vals):
         return ":int64-min"
-    return ":bigint" if any(abs(x) >= BIG for x in vals) else ""
+    if any(abs(x) >= BIG for x in vals):
+        return ":bigint"
+    return float_region(rows)
+
+
+FLOAT_REGIONS = (":float-subnormal", ":long-float")
+LONG_FLOAT = 16          # characters of 'd.dddddddddddddd', a bare 15-digit mantissa
+
+
+def float_region(rows):
+    """float regions with their own signature: a value below the smallest normal double, and a value whose shortest
+    decimal text that parses back to it (repr) is longer than LONG_FLOAT characters - 16..17 significant digits, or 15
+    together with a sign / an exponent / leading zeros (up to 24 characters: '-1.2345678901234567e-100')"""
+    vals = [v for r in rows for v in r if isinstance(v, float) and v == v and abs(v) != float("inf")]
+    if any(0 < abs(v) < ref.MIN_NORMAL for v in vals):
+        return ":float-subnormal"
+    return ":long-float" if any(len(repr(v)) > LONG_FLOAT for v in vals) else ""
+
+
+def _short_floats(rows):
+    """the same rows with every float replaced by a short one (probe: is a failure a matter of the float values?)"""
+    short = [0.5, 2.0, -1.5, 12.25]
+    out, k = [], 0
+    for r in rows:
+        nr = []
+        for v in r:
+            if isinstance(v, float):
+                nr.append(short[k % len(short)])
+                k += 1
+            else:
+                nr.append(v)
+        out.append(nr)
+    return out
 
 
 def check_content(spec, rows, data, expected_header=None, width=None):
@@ -433,7 +465,12 @@ def _same(o1, o2):
 def _label(tmp, case, key, outcome):
     """what the failure is attributable to: the integer region, the column encoding variant, or the type"""
     reg = region(case["rows"])
-    if reg:
+    if reg in FLOAT_REGIONS:
+        # only if the same table with short float values is fine; otherwise it is not a matter of the float values
+        plain = evaluate_write(tmp, dict(case, rows=_short_floats(case["rows"])), tag="probe")[key]
+        if plain is not None and plain[0] == "ok":
+            return reg[1:]
+    elif reg:
         return reg[1:]
     variant = case.get("variant")
     if variant not in (None, "base"):
@@ -1134,6 +1171,145 @@ def bigint_family():
         yield {"kind": "write", "type": "sam", "variant": None, "rows": [r1, sam0], "split": [2], "mode": "one", "gz": False, "readback": True}
 
 
+# float columns (BedGraph.value, NarrowPeak signal/p/q value, a custom float column): doubles enumerated by the SHAPE
+# of their shortest decimal text: significant digits 1..17 x sign x exponent (positional notation with leading zeros /
+# trailing '.0', two-digit and three-digit exponents, up to the limits of the double range).  The text of a double is
+# 3..24 characters long; the pools above stay below 11.
+FLOAT_MANTISSAS = ["1", "15", "125", "1234567", "123456789012345", "1234567890123456", "12345678901234567",
+                   "9876543210987654", "98765432109876543", "9999999999999999", "1000000000000001", "17976931348623157",
+                   "22250738585072014", "49"]
+FLOAT_EXPONENTS = [-308, -307, -300, -101, -100, -99, -10, -7, -5, -4, -3, -1, 0, 1, 5, 14, 15, 16, 17, 21, 22, 99, 100,
+                   101, 300, 307, 308]
+SUBNORMALS = [5e-324, 1e-323, 2.5e-310, 1.2345678901234e-310, 2.225073858507201e-308, -5e-324, -1.5e-315, -2.225073858507201e-308]
+
+
+def float_values(mantissas=None, exponents=None):
+    """finite normal doubles +-d.ddd x 10^e, distinct, in the order exponent, mantissa, sign"""
+    out, seen = [], set()
+    for e in exponents or FLOAT_EXPONENTS:
+        for m in mantissas or FLOAT_MANTISSAS:
+            for sign in ("", "-"):
+                v = float("%s%s.%se%d" % (sign, m[0], m[1:] or "0", e))
+                if v in seen or abs(v) == float("inf") or abs(v) < ref.MIN_NORMAL:
+                    continue
+                seen.add(v)
+                out.append(v)
+    return out
+
+
+def random_doubles(rng, n):
+    """seeded sample above the enumeration: doubles drawn by bit pattern (uniform over sign, exponent and mantissa
+    bits: 16..17 significant digits, exponents over the whole range), finite and normal"""
+    import struct
+    out = []
+    while len(out) < n:
+        v = struct.unpack("<d", struct.pack("<Q", rng.getrandbits(64)))[0]
+        if v == v and abs(v) != float("inf") and abs(v) >= ref.MIN_NORMAL:
+            out.append(v)
+    return out
+
+
+def _float_rows(tname, values, salt=0):
+    """rows of a type with float columns whose float fields are `values` in order (the other fields from the pool)"""
+    spec = SPECS[tname]
+    p = pool(tname, None, "quick")
+    fl = [i for i, (_, k) in enumerate(spec.fields) if k == "float"]
+    rows = []
+    for j in range(0, len(values), len(fl)):
+        r = list(p[(j // len(fl) + salt) % len(p)])
+        for i, v in zip(fl, (values[j:j + len(fl)] + values[:len(fl)])[:len(fl)]):
+            r[i] = v
+        rows.append(r)
+    return rows
+
+
+def _chunks(xs, k):
+    return [xs[i:i + k] for i in range(0, len(xs), k)]
+
+
+def float_family(tier, rng=None):
+    """tables whose float columns hold doubles of every text shape (see FLOAT_MANTISSAS / FLOAT_EXPONENTS): single write
+    + read back, the pieces modes, gzip, lazily read tables with another column replaced; thorough: every value as a
+    1-row table and every pair of neighbours as a 2-row table"""
+    thorough = tier == "thorough"
+
+    def one(tname, rows, gz=False):
+        return {"kind": "write", "type": tname, "variant": None, "rows": rows, "split": [len(rows)], "mode": "one", "gz": gz,
+                "readback": True}
+
+    def pieces(tname, rows, split, mode, gz=False):
+        return {"kind": "write", "type": tname, "variant": None, "rows": rows, "split": split, "mode": mode, "gz": gz}
+
+    by_exp = [float_values(exponents=[e]) for e in FLOAT_EXPONENTS]
+    by_man = [float_values(mantissas=[m]) for m in FLOAT_MANTISSAS]
+    everything = [v for g in by_exp for v in g]
+    # BedGraph: all shapes of one exponent (the row lengths differ by the sign and the digits), all exponents of one shape
+    for g in by_exp:
+        if g:
+            yield one("bedgraph", _float_rows("bedgraph", g))
+    for j, g in enumerate(by_man):
+        rows = _float_rows("bedgraph", g, j)
+        n = len(rows)
+        if thorough:
+            yield one("bedgraph", rows, gz=True)
+        for mode, split in (("multi", [n // 2, n - n // 2]), ("stream", [1, n - 2, 1]), ("append", [n - 1, 1])):
+            yield pieces("bedgraph", rows, split, mode, gz=(j % 2 == 1) != (mode == "stream"))
+    # NarrowPeak: three float columns per row; the generic delimited table with a float column (TAB and comma)
+    for j, g in enumerate(_chunks(everything, 27)):
+        rows = _float_rows("narrowpeak", g, j)
+        yield one("narrowpeak", rows, gz=j % 4 == 3)
+        if thorough or j % 3 == 0:
+            n = len(rows)
+            yield pieces("narrowpeak", rows, [1] * n, ("multi", "stream", "append")[j % 3], gz=j % 2 == 1)
+    for tname in ("custom_tsv", "custom_csv"):
+        for j, g in enumerate(_chunks(everything, 24 if thorough else 48)):
+            if not thorough and (j % 2 == 1) == (tname == "custom_tsv"):
+                continue
+            rows = _float_rows(tname, g, j)
+            yield one(tname, rows)
+            if thorough:
+                yield pieces(tname, rows, [len(rows) - 2, 2], ("multi", "stream", "append")[j % 3])
+    # below the smallest normal double
+    yield one("bedgraph", _float_rows("bedgraph", SUBNORMALS))
+    for v in SUBNORMALS:
+        yield one("bedgraph", _float_rows("bedgraph", [v]))
+    yield one("narrowpeak", _float_rows("narrowpeak", SUBNORMALS + [0.5]))
+    # a table read from a file (lazy object) with another column replaced: the float column is written again
+    longs = [v for v in everything if len(repr(v)) > 21]
+    for tname in ("bedgraph", "narrowpeak"):
+        per = 3 * sum(1 for _, k in SPECS[tname].fields if k == "float")
+        for j, g in enumerate(_chunks(longs, per)):
+            if len(g) < per or (not thorough and j % 4):
+                continue
+            rows = _float_rows(tname, g, j)
+            for field in (None, "start", "chromosome"):
+                mod = None if field is None else {"field": field, "values": _alt_values("int" if field == "start" else "id", rows, j)}
+                for split, mode in (([3], "multi"), ([1, 2], "append"), ([1, 1, 1], "stream")):
+                    if not thorough and (mode == "stream") != (field == "chromosome") and field is not None:
+                        continue
+                    yield {"kind": "lazy", "type": tname, "rows": rows, "header": "", "modify": mod, "split": split, "mode": mode,
+                           "gz": False}
+    # seeded sample of arbitrary doubles
+    if rng is not None:
+        sample = random_doubles(rng, 480 if thorough else 96)
+        for j, g in enumerate(_chunks(sample, 12)):
+            tname = ("bedgraph", "narrowpeak", "custom_tsv")[j % 3]
+            rows = _float_rows(tname, g, j)
+            n = len(rows)
+            yield one(tname, rows, gz=j % 5 == 4)
+            k = rng.randrange(n + 1)
+            yield pieces(tname, rows, [k, n - k], rng.choice(["multi", "stream", "append"]), gz=rng.random() < 0.3)
+    if thorough:
+        # every value on its own, and with its neighbour in the other order of the enumeration (row-length combinations)
+        order = [v for g in by_man for v in g]
+        for i, v in enumerate(order):
+            yield one("bedgraph", _float_rows("bedgraph", [v], i))
+            w = order[(i + 1) % len(order)]
+            rows = _float_rows("bedgraph", [v, w], i)
+            yield pieces("bedgraph", rows, [2], "one")
+            yield pieces("bedgraph", rows, [1, 1], ("multi", "append", "stream")[i % 3], gz=i % 7 == 0)
+
+
 SUFFIXES = [(".bed", "interval"), (".bdg", "bedgraph"), (".narrowPeak", "narrowpeak"), (".fasta", "fasta"),
             (".fa", "fasta"), (".fna", "fasta"), (".faa", "fasta"), (".fastq", "fastq"), (".fq", "fastq"),
             (".gtf", "gtf"), (".sam", "sam"), (".vcf", "vcf")]
@@ -1422,6 +1598,8 @@ def all_cases(tier, rng=None):
             if rng is not None:
                 for c in sampled_family(tier, rng):
                     yield c
+            for c in float_family(tier, rng):      # after sampled_family: the seeded cases of that family stay what they were
+                yield c
         for (tname, variant), k, k3 in plans:
             p = pool(tname, variant, tier)
             if tname == "fasta" and variant == "base" and n_rows < 3:
